@@ -87,6 +87,7 @@ def parseSel? (s : Store) (t : String) : Option Sel :=
   | "i:" => (parseItem? body).map Sel.item
   | "d:" => (s.dim? body).map Sel.dim
   | "l:" => (parseItems? body).map Sel.list
+  | "g:" => (parseItems? body).map Sel.list      -- a one-shot iterable of the same items
   | _ => none
 
 def parseKey? (s : Store) (t : String) : Option Key :=
@@ -282,7 +283,8 @@ def arrayStep2 (s : Store) (toks : List String) : Option (Store × String) :=
       | _, _ => (s, "err"))
   | ["split", x, k] =>
     some (s, optStr (do (← s.arr? x).split? k) fun ps =>
-      " ;; ".intercalate (ps.map fun (it, a) => showItem it ++ " " ++ showArr (memoArr a)))
+      -- the parts are arrays of their own (fresh buffers): the harness's write-through probe finds them independent
+      " ;; ".intercalate (ps.map fun (it, a) => showItem it ++ " " ++ showArr (memoArr a)) ++ " | independent")
   | "stack" :: h :: d :: xs =>
     some (putArr s h (do FArr.stack? (← xs.mapM s.arr?) (← s.dim? d)))
   | ["itemswhere", x, cmp, c] =>
@@ -335,7 +337,7 @@ def arrayStep2 (s : Store) (toks : List String) : Option (Store × String) :=
     some (match parseHandle? x, s.harr? x, s.dim? d with
       | some hn, some (dx, v), some dim =>
         match appendInplace? dx dim with
-        | some ds => (s.put hn (.harr ds v), "ok " ++ showArr (memoArr ⟨ds, s.readView v⟩))
+        | some ds => (s.put hn (.harr ds v), "ok " ++ showArr (memoArr ⟨ds, s.readView v⟩) ++ " | others_unaffected")
         | none => (s, "err")
       | _, _, _ => (s, "err"))
   | "mkstock" :: ds :: tl :: rest =>
@@ -383,6 +385,7 @@ def dimsStep (s : Store) (toks : List String) : Option (Store × String) :=
     | "dimadd", [h, d, b] => some (putDset s h (do add? [← s.dim? d] (← s.dset? b)))
     | "dimadd2", [h, d1, d2] => some (putDset s h (do DimSet.mk? [← s.dim? d1, ← s.dim? d2]))
     | "subset", h :: a :: keys => some (putDset s h (do getSubset? (← s.dset? a) (some keys)))
+    | "subsetiter", h :: a :: keys => some (putDset s h (do getSubset? (← s.dset? a) (some keys)))
     | "copy", [h, a] => some (putDset s h (s.dset? a))
     | "subsetnone", [h, a] => some (putDset s h (do getSubset? (← s.dset? a) none))
     | "expand", h :: a :: ds => some (putDset s h (do expandBy? (← s.dset? a) (← ds.mapM s.dim?)))
